@@ -23,6 +23,8 @@ func runC12(c *Ctx) {
 	ruleGetRangeBounds(c)
 	ruleConfigAgreement(c)
 	ruleReverseGroups(c)
+	ruleReverseByBody(c, "R12.d")
+	rulePingEchoShapes(c, "R12.j")
 	ruleDerivedSignatures(c)
 	ruleIsNilMeansNull(c, "R12.f")
 	rulePayloadStores(c, "R12.f")
